@@ -1,5 +1,3 @@
 // ----- ghost oracle, core part: assignments and arithmetic wrappers (no dependence on the expression type) -----
 pub type Env = Map<Seq<char>, real>;
-// products and quotients go through these wrappers so that nonlinear facts can be stated as triggerable lemmas
-pub open spec fn rmul_s(c: real, a: real) -> real { c * a }
-pub open spec fn rdiv_s(a: real, d: real) -> real { a / d }
+// (products and quotients use the opaque wrappers rmul_s / rdiv_s of prelude/f64_layer.rs)
